@@ -446,3 +446,40 @@ var seeds = []string{
 	",=", ",=x", ",==", ",,", ",", "=,", "a,=b,c", "[,", "],", "(,),", ",a=[", ",a=]", ",é=1", ",世", ",\xff=1", ",required=false ,", ",Required=false", ",required=[false]",
 	",note=[legacy,required=false,see docs]", ",required= false", ",required=false true", ",required", ",required=", "x,required=false,required=true",
 }
+
+
+// TestEndToEndPropEmptyKey: the prop shorthand with an EMPTY value part - the arguments still start at the first
+// top-level comma: prop:",required=false" is optional.
+func TestEndToEndPropEmptyKey(t *testing.T) {
+	kit.Rec.Rule(rule)
+	rapid.Check(t, func(t *rapid.T) {
+		ts := genTag(t)
+		var args []argSpec
+		for _, a := range ts.Args {
+			if c := canon(a.Name); c != "Validate" && c != "Mapper" && c != "TimeLayout" && c != "Required" {
+				args = append(args, a)
+			}
+		}
+		optional := rapid.Bool().Draw(t, "optional")
+		if optional {
+			pos := rapid.IntRange(0, len(args)).Draw(t, "pos")
+			args = append(args[:pos], append([]argSpec{{Name: "required", Items: []string{"false"}}}, args[pos:]...)...)
+		}
+		ts.Args = args
+		ts.Value = ""
+		tag := ts.render()
+		typ := reflect.StructOf([]reflect.StructField{{Name: "F", Type: reflect.TypeOf(map[string]any(nil)), Tag: quoteTag("prop", tag)}})
+		obj := reflect.New(typ)
+		out := kit.RunApp(app.SetComponents(obj.Interface())) // no configuration at all: the root is empty
+		if out.Panic != nil {
+			t.Fatalf("C19: prop:%q panicked: %v", tag, out.Panic)
+		}
+		if optional && out.Err != nil {
+			t.Fatalf("C19: prop:%q carries an explicit required=false after the (empty) value part, start-up must not fail: %v", tag, out)
+		}
+		if !optional && out.Err == nil {
+			t.Fatalf("C19: prop:%q has no required=false and nothing is configured, yet start-up succeeded", tag)
+		}
+		kit.Rec.Case("prop-empty-key "+tag, true, "e2e-prop-empty-key")
+	})
+}
